@@ -1,6 +1,7 @@
 (* C18 — EDM scores are the weighted triple-overlap ratios they are defined to be. *)
 From Coq Require Import List NArith ZArith Bool QArith Permutation PrimFloat.
 From PyD Require Import Base.Str Model.Edm Proofs.EdmP Proofs.EdmTie Gen.EdmGen.
+From PyD Require Import Proofs.EdmRename.
 Import ListNotations.
 
 (* the "both" count of a category is the size of the multiset intersection:
@@ -70,3 +71,12 @@ Theorem C18_tie_totals : forall m,
              gen_both_total_F m w = total_F c_both m w).
 Proof. exact (fun m => conj (tie_totals_Q m) (tie_totals_F m)). Qed.
 Print Assumptions C18_tie_totals.
+
+(* the scores do not depend on node identifiers: renaming them in every
+   structure by an injective function changes neither the counts nor the
+   scores (exact and binary64) *)
+Theorem C18_renaming_invariant : forall f golds tests ig it, (forall a b, f a = f b -> a = b) ->
+  (forall w, compute_Q (map (ren_opt f) golds) (map (ren_opt f) tests) w ig it = compute_Q golds tests w ig it) /\
+  (forall w, compute_F (map (ren_opt f) golds) (map (ren_opt f) tests) w ig it = compute_F golds tests w ig it).
+Proof. exact compute_ren. Qed.
+Print Assumptions C18_renaming_invariant.
